@@ -9,8 +9,11 @@ import subprocess
 HERE = os.path.dirname(os.path.dirname(os.path.abspath(__file__)))
 base = json.load(open(os.path.join(HERE, "manifest.d", "_base.json")))
 checks = []
+enabled = set(open(os.path.join(HERE, "manifest.d", "_enabled.txt")).read().split())
 for p in sorted(glob.glob(os.path.join(HERE, "manifest.d", "C*.json"))):
     c = json.load(open(p))
+    if c["property_id"] not in enabled:
+        continue
     pid = c["property_id"]
     c.setdefault("quick_cmd", "./check %s --tier quick" % pid)
     c.setdefault("thorough_cmd", "./check %s --tier thorough" % pid)
